@@ -403,7 +403,13 @@ func TestVerifC20Agree(t *testing.T) {
 			t.Fatalf("replay file: %v", err)
 		}
 		replayOnly = &file.Replay
+		if replayOnly.Input == "" {
+			// a finding of the static part (wire names, registrations): the whole unit is cheap, re-run it
+			fmt.Printf("C20 replay of %+v: re-running the complete agreement unit\n", *replayOnly)
+			replayOnly = nil
+		}
 	}
+	replayMatched := false
 	repo := os.Getenv("VERIF_REPO")
 	if repo == "" {
 		repo = "../../.."
@@ -626,6 +632,7 @@ func TestVerifC20Agree(t *testing.T) {
 					} else if !r.Mine(k) {
 						continue
 					}
+					replayMatched = true
 					if !encoded {
 						stream, encErr = prod.Enc(in.Data)
 						encoded = true
@@ -681,5 +688,8 @@ func TestVerifC20Agree(t *testing.T) {
 				}
 			}
 		}
+	}
+	if replayOnly != nil && !replayMatched {
+		fmt.Printf("C20 replay: the pair %+v does not exist in this tree (producer/consumer labels are derived from the registrations found in the source)\n", *replayOnly)
 	}
 }
